@@ -109,6 +109,7 @@ def gen_hm(rng, size):
     # iwhmap_lru_init in the middle of the life of the map (entries exist, possibly a second time with another bound)
     late = rng.weighted([(0, 3), (1, 2), (2, 1)])
     open_ = os.environ.get("VERIF_CONT_OPEN") == "1"
+    failing = rng.chance(1, 3)     # scripts with allocation failures inside iwhmap.c
 
     def val():
         vid[0] += 1
@@ -137,6 +138,20 @@ def gen_hm(rng, size):
         op = rng.weighted(w)
         if ramp and op == "clear" and rng.chance(3, 4):
             op = "get"
+        if failing and rng.chance(1, 12):
+            # hm failat: the n-th allocation of iwhmap.c at one of the listed sites returns NULL.  `readd` (_entry_add inside
+            # _rehash, finding cont-hmap-rehash-fail) and `add` in front of a rename (cont-hmap-rename-fail) only with OPEN
+            if open_ and rng.chance(1, 2):
+                lines.append("hm failat %d %s" % (rng.range(1, 30), rng.choice(["all", "readd", "add,readd", "readd,rehash,node"])))
+            elif rng.chance(1, 3):
+                kk = rng.choice(keys)
+                lines += ["hm failat 1 add", "hm put %s %d" % (kk, val()), "hm failoff"]
+                # the generator does not know whether the put went through; `live` is only a hint
+            else:
+                lines.append("hm failat %d %s" % (rng.range(1, 8), rng.choice(["node", "rehash", "shrink", "clear", "strdup",
+                                                                                "rehash,shrink", "node,strdup,clear", "node,rehash,shrink,clear,strdup"])))
+        if failing and rng.chance(1, 40):
+            lines.append("hm failoff")
         if late and (i == n // 3 or (late == 2 and i == 2 * n // 3) or rng.chance(1, 150)):
             lines.append("hm lruinit %d" % rng.weighted([(0, 1), (1, 2), (2, 2), (3, 2), (len(live) // 2 + 1, 3), (len(live), 2), (len(live) + 1, 2), (len(live) + 5, 2), (300, 1)]))
             lines.append("hm lru")
@@ -179,8 +194,8 @@ def gen_hm(rng, size):
         if rng.chance(1, 2):
             for k in keys[:rng.range(3, 70)]:
                 lines.append("hm put %s %d" % (k, val()))
-    lines += ["hm iter", "hm lru", "hm shape", "hm destroy"]
-    return {"c": "hm", "lines": lines, "tag": "hm-%s-lru%s-%s" % (kind, "off" if lru < 0 else "on", ("ramp%d" % ramp) if ramp else ("big" if npool > 64 else "small"))}
+    lines += ["hm failoff", "hm iter", "hm lru", "hm shape", "hm destroy"] if failing else ["hm iter", "hm lru", "hm shape", "hm destroy"]
+    return {"c": "hm", "lines": lines, "tag": "hm-%s-lru%s-%s%s" % (kind, "off" if lru < 0 else "on", ("ramp%d" % ramp) if ramp else ("big" if npool > 64 else "small"), "-af" if failing else "")}
 
 
 def gen_ul(rng, size):
@@ -835,6 +850,113 @@ def directed_ul(rng):
     return ss
 
 
+def directed_hm_af(key, val):
+    """allocation failure at every allocation site of iwhmap.c x the interesting states (harness: hm failat <n> <sites>)"""
+    ss = []
+    open_ = os.environ.get("VERIF_CONT_OPEN") == "1"
+
+    def add(tag, lines):
+        ss.append({"c": "hm", "tag": "dir-hm-af-" + tag, "lines": lines + ["hm failoff", "hm destroy"]})
+    # iwhmap_create: malloc / calloc
+    for kind in ("u32", "str", "ptr"):
+        add("create-" + kind, ["hm failat 1 chm", "hm new %s 3" % kind, "hm put %s 1" % key(kind, 1), "hm count", "hm failat 1 cbk",
+                               "hm new %s -1" % kind, "hm iter", "hm failat 2 chm,cbk", "hm new %s 2" % kind, "hm new %s 2" % kind,
+                               "hm put %s %d" % (key(kind, 1), val()), "hm iter"])
+    # _entry_add from put: first allocation of a bucket, then every step of 4 of ONE bucket (equal hashes); put again after the failure
+    for kind in ("u32", "u64", "str", "skv", "ptr"):
+        lines = ["hm new %s -1" % kind, "hm failat 1 add", "hm put %s %d" % (key(kind, 0), val()), "hm count", "hm shape", "hm failoff",
+                 "hm put %s %d" % (key(kind, 0), val()), "hm failat 1 add", "hm put %s %d" % (key(kind, 0), val()), "hm failoff", "hm iter"]
+        if kind in ("str", "skv"):
+            lines += ["hm failat 1 strdup", "hm put %s %d" % (key(kind, 5), val()), "hm put %s %d" % (key(kind, 5), val()), "hm iter"]
+        add("put-" + kind, lines)
+    lines = ["hm new ptr -1"]
+    for j in range(14):
+        k = str(7 + 97 * j)
+        # armed: the put of the new key and the replacing put (a replace grows the bucket too when used + 1 >= total)
+        lines += ["hm failat 1 add", "hm put %s %d" % (k, val()), "hm put %s %d" % (k, val()), "hm failoff", "hm shape",
+                  "hm put %s %d" % (k, val()), "hm shape"]
+    lines += ["hm iter"]
+    add("bucket-steps", lines)
+    # _rehash: calloc fails at 64 -> 128 and 128 -> 256 (the map stays dense, the next put retries), and on the way down
+    for kind in ("u32", "str"):
+        lines = ["hm new %s -1" % kind]
+        for i in range(140):
+            if i in (63, 64, 127, 128):
+                lines += ["hm failat 1 rehash"]
+            lines.append("hm put %s %d" % (key(kind, i), val()))
+            if i in (63, 64, 65, 127, 128, 129):
+                lines += ["hm shape", "hm failoff"]
+        lines += ["hm iter"]
+        n = 140
+        for i in range(140):
+            if n in (64, 63, 32, 31):
+                lines += ["hm failat 1 rehash"]
+            lines.append("hm rm %s" % key(kind, i)); n -= 1
+            if n in (63, 62, 61, 31, 30, 29):
+                lines += ["hm shape", "hm failoff"]
+        lines += ["hm iter", "hm put %s %d" % (key(kind, 1), val()), "hm iter"]
+        add("rehash-calloc-" + kind, lines)
+    # _lru_entry_update: the first node, a later node, a get of a node-less entry, after a late lru_init, with eviction going on
+    for kind in ("u32", "str", "ptr"):
+        lines = ["hm new %s 3" % kind, "hm failat 1 node", "hm put %s %d" % (key(kind, 0), val()), "hm lru",
+                 "hm put %s %d" % (key(kind, 1), val()), "hm failat 1 node", "hm put %s %d" % (key(kind, 2), val()), "hm lru",
+                 "hm failat 1 node", "hm get %s" % key(kind, 0), "hm lru", "hm get %s" % key(kind, 0), "hm lru",
+                 "hm put %s %d" % (key(kind, 3), val()), "hm lru", "hm count", "hm put %s %d" % (key(kind, 4), val()), "hm lru", "hm count",
+                 "hm failat 1 node", "hm ren %s %s" % (key(kind, 2), key(kind, 9)), "hm lru", "hm iter",
+                 "hm failat 2 node", "hm put %s %d" % (key(kind, 5), val()), "hm put %s %d" % (key(kind, 6), val()), "hm lru", "hm count", "hm iter",
+                 "hm clear", "hm put %s %d" % (key(kind, 1), val()), "hm put %s %d" % (key(kind, 2), val()), "hm lruinit 1",
+                 "hm failat 1 node", "hm get %s" % key(kind, 1), "hm lru", "hm get %s" % key(kind, 2), "hm lru", "hm put %s %d" % (key(kind, 3), val()),
+                 "hm lru", "hm iter"]
+        add("node-" + kind, lines)
+    # _entry_remove: the realloc that gives back steps of 4 fails (ignored: total stays), one bucket of 14 drained
+    lines = ["hm new ptr -1"] + ["hm put %d %d" % (9 + 97 * j, val()) for j in range(14)] + ["hm shape"]
+    for j in range(14):
+        lines += ["hm failat 1 shrink", "hm rm %d" % (9 + 97 * j), "hm shape", "hm failoff"]
+    lines += ["hm put 9 %d" % val(), "hm shape", "hm iter"]
+    add("shrink", lines)
+    # iwhmap_clear of a large map: realloc to MIN_BUCKETS fails, the large zeroed array stays; everything works afterwards
+    for kind, lru in (("u64", -1), ("str", 200)):
+        lines = ["hm new %s %d" % (kind, lru)] + ["hm put %s %d" % (key(kind, i), val()) for i in range(135)]
+        lines += ["hm shape", "hm failat 1 clear", "hm clear", "hm shape", "hm lru", "hm iter"]
+        lines += ["hm put %s %d" % (key(kind, i), val()) for i in range(70)] + ["hm shape", "hm iter", "hm clear", "hm shape",
+                  "hm put %s %d" % (key(kind, 3), val()), "hm iter"]
+        add("clear-" + kind, lines)
+    # several failures in a row while a map with LRU works
+    lines = ["hm new u32 40"]
+    for i in range(120):
+        if i % 7 == 3:
+            lines.append("hm failat %d node,rehash,shrink" % (1 + i % 3))
+        lines.append("hm put %s %d" % (key("u32", i % 90), val()))
+        if i % 5 == 0:
+            lines.append("hm get %s" % key("u32", (i * 7) % 90))
+        if i % 20 == 19:
+            lines += ["hm lru", "hm shape", "hm count"]
+    lines += ["hm iter"]
+    add("mix-lru", lines)
+    if open_:
+        # finding cont-hmap-rehash-fail: _entry_add fails inside _rehash (grow at 64 and 128, shrink), then every key is looked up
+        for kind, n0, fa in (("u32", 63, 20), ("u32", 63, 1), ("u32", 63, 2), ("u64", 63, 40), ("str", 63, 33), ("ptr", 63, 5),
+                             ("u32", 127, 50), ("str", 127, 90)):
+            lines = ["hm new %s -1" % kind] + ["hm put %s %d" % (key(kind, i), val()) for i in range(n0)]
+            lines += ["hm failat %d readd" % fa, "hm put %s %d" % (key(kind, n0), val()), "hm shape", "hm count"]
+            lines += ["hm get %s" % key(kind, i) for i in range(n0 + 1)] + ["hm iter", "hm put %s %d" % (key(kind, n0 + 1), val()), "hm shape", "hm iter"]
+            add("rehash-readd-%s-%d-%d" % (kind, n0, fa), lines)
+        lines = ["hm new u32 -1"] + ["hm put %s %d" % (key("u32", i), val()) for i in range(140)]
+        lines += ["hm rm %s" % key("u32", i) for i in range(76)] + ["hm shape", "hm failat 9 readd"]
+        lines += ["hm rm %s" % key("u32", i) for i in range(76, 80)] + ["hm shape"] + ["hm get %s" % key("u32", i) for i in range(76, 140)] + ["hm iter"]
+        add("rehash-readd-shrink", lines)
+        lines = ["hm new ptr 70"] + ["hm put %d %d" % (5 + i, val()) for i in range(63)]
+        lines += ["hm failat 3 readd", "hm put 900 %d" % val(), "hm lru", "hm shape"] + ["hm put %d %d" % (901 + i, val()) for i in range(12)] + ["hm lru", "hm shape", "hm iter"]
+        add("rehash-readd-lru", lines)
+        # finding cont-hmap-rename-fail: _entry_add(key_new) fails after _entry_remove(key_old)
+        for kind, lru in (("u32", -1), ("u32", 2), ("str", -1), ("skv", 3), ("ptr", -1)):
+            lines = ["hm new %s %d" % (kind, lru), "hm put %s %d" % (key(kind, 1), val()), "hm put %s %d" % (key(kind, 2), val()),
+                     "hm failat 1 add", "hm ren %s %s" % (key(kind, 1), key(kind, 3)), "hm count", "hm lru", "hm get %s" % key(kind, 1),
+                     "hm get %s" % key(kind, 3), "hm failoff", "hm ren %s %s" % (key(kind, 2), key(kind, 3)), "hm iter"]
+            add("rename-add-%s%s" % (kind, "-lru" if lru >= 0 else ""), lines)
+    return ss
+
+
 def directed_hm(rng):
     ss = []
 
@@ -944,6 +1066,7 @@ def directed_hm(rng):
                  "hm ren %s %s" % (key(kind, 3), key(kind, 4)), "hm iter", "hm clear", "hm iter", "hm null",
                  "hm put %s %d" % (key(kind, 5), val()), "hm put %s %d" % (key(kind, 6), val()), "hm create0", "hm destroy"]
         ss.append({"c": "hm", "tag": "dir-hm-header-" + kind, "lines": lines})
+    ss += directed_hm_af(key, val)
     if os.environ.get("VERIF_CONT_OPEN") == "1":
         # open finding hmap-iter-next-past-end: one more iwhmap_iter_next after the call that returned false
         ss.append({"c": "hm", "tag": "dir-hm-iterx", "lines": ["hm new u32 -1", "hm iterx", "hm put 1 5", "hm iterx", "hm destroy"]})
@@ -1201,8 +1324,19 @@ def oracle_hm(lines, outs):
         t = l.split()
         op = t[1]
         r = kv(o)
+        # af = allocation sites of iwhmap.c that returned NULL during this call (reported by the harness' hooks)
+        af = [x for x in r.get("af", "").split(",") if x]
         if op == "new":
             d, rec, kind, lru = {}, [], t[2], int(t[3])
+            if o.startswith("null"):
+                # iwhmap_create under a failing allocator: no map (the old one was destroyed by the harness before)
+                kind = None
+                if not (set(af) & {"chm", "cbk"}):
+                    bad.append((i, "iwhmap_create returned NULL without an allocation failure: %s" % o))
+            elif af:
+                bad.append((i, "iwhmap_create returned a map although its allocation failed: %s" % o))
+            continue
+        if op in ("failat", "failoff"):
             continue
         if "FAULT" in o:
             bad.append((i, "model-side fault marker in implementation output")); continue
@@ -1230,6 +1364,18 @@ def oracle_hm(lines, outs):
             if r.get("r") != ("1" if len(d) > int(t[2]) else "0"):
                 bad.append((i, "iwhmap_lru_eviction_max_count(%s) with %d entries answered %s" % (t[2], len(d), o)))
             continue
+        if op in ("put", "ren") and r.get("rc") != "0" and not (set(af) & {"add", "strdup"}):
+            bad.append((i, "%s failed without an allocation failure: %s" % (op, o)))
+            continue
+        if op == "put" and (set(af) & {"add", "strdup"}):
+            # a failed put changes nothing, reports the error, frees nothing (key and value stay with the caller)
+            if r.get("rc") == "0" or r.get("n") != str(len(d)) or flog(o):
+                bad.append((i, "put whose allocation failed: expected rc=err n=%d f=-, got %s" % (len(d), o)))
+            continue
+        if "node" in af and op in ("put", "get", "ren"):
+            kk = t[3] if op == "ren" else t[2]
+            if kk in rec and not (op == "ren" and t[2] == kk):
+                bad.append((i, "an LRU node was allocated for key %s that has one" % kk))
         if op == "put":
             k, v = t[2], t[3]
             ef = []
@@ -1239,7 +1385,8 @@ def oracle_hm(lines, outs):
             if lru >= 0:
                 if k in rec:
                     rec.remove(k)
-                rec.append(k)
+                if "node" not in af:      # malloc of the node failed: the entry stays without node
+                    rec.append(k)
                 while len(d) > lru and rec:
                     vic = rec.pop(0)
                     ef.append((fk(vic), d.pop(vic)))
@@ -1250,7 +1397,7 @@ def oracle_hm(lines, outs):
         elif op == "get":
             k = t[2]
             ev = d.get(k)
-            if k in d and lru >= 0:
+            if k in d and lru >= 0 and "node" not in af:
                 if k in rec:
                     rec.remove(k)
                 rec.append(k)
@@ -1270,6 +1417,18 @@ def oracle_hm(lines, outs):
         elif op == "ren":
             a, b = t[2], t[3]
             ef = []
+            if a in d and "add" in af:
+                # _entry_add(key_new) failed after the old entry was removed: the entry is gone, rc != 0, key_new stays with
+                # the caller and the VALUE must have been handed to kv_free_fn (finding cont-hmap-rename-fail: it is dropped)
+                v = d.pop(a)
+                if a in rec:
+                    rec.remove(a)
+                ef = [(fk(a), "0"), ("0", v)]
+                if r.get("rc") == "0" or r.get("n") != str(len(d)):
+                    bad.append((i, "rename whose allocation failed: expected rc=err n=%d, got %s" % (len(d), o)))
+                if flog(o) != exp(ef):
+                    bad.append((i, "rename whose allocation failed lost the value %s: freed %s, expected %s" % (v, flog(o), exp(ef))))
+                continue
             if a in d:
                 v = d.pop(a)
                 ef.append((fk(a), "0"))
@@ -1280,7 +1439,7 @@ def oracle_hm(lines, outs):
                     rec.remove(a)
                 if b in rec:
                     rec.remove(b)
-                if lru >= 0:
+                if lru >= 0 and "node" not in af:
                     rec.append(b)
             if r.get("rc") != "0" or r.get("n") != str(len(d)) or flog(o) != exp(ef):
                 bad.append((i, "rename: %s, reference n=%d freed %s" % (o, len(d), exp(ef))))
